@@ -440,6 +440,11 @@ class World:
         key = self.key_of_path.get(path)
         if key is not None:
             return key
+        if getattr(self, "oracle", None) is not None:
+            # file names that do not follow the documented scheme: what earlier requests returned for which key
+            key = self.oracle.owner_of_path.get(path)
+            if key is not None:
+                return key
         if path.startswith(self.cache_dir + "/"):
             m = self._MD5.search(posixpath.basename(path))
             if m:
@@ -551,7 +556,11 @@ class World:
                         # remote side answers "no such object"
                         raise NotFound("sim resource lost object %s part-way" % uri)
                     if kind == "INTERRUPT_MID":
-                        # the user hits Ctrl-C part-way through a (sequential) download
+                        # the user hits Ctrl-C part-way through a (sequential) download; the signal reaches the
+                        # main thread only: in a pool worker (a cache reopened asking for the other download mode)
+                        # the same fault is an ordinary error
+                        if self.sched.current is not self.sched.client:
+                            raise self._err_type()("injected: connection lost part-way through %s" % uri)
                         raise KeyboardInterrupt()
                     raise self._err_type()("injected: connection lost part-way through %s" % uri)
                 f.write(piece)
@@ -618,6 +627,8 @@ class World:
             if kind == "PP_ERR_MID":
                 raise InjectedError("injected: post-processor failed part-way")
             if kind == "PP_INTERRUPT_MID":
+                if self.sched.current is not self.sched.client:
+                    raise InjectedError("injected: post-processor failed part-way")
                 raise KeyboardInterrupt()
             f.write(out[half:])
         if kind == "PP_ERR_AFTER":
@@ -644,6 +655,18 @@ class World:
             with open(filepath, "rb") as f:
                 data = f.read()
             verdict = data == self.expected_bytes(key)
+        elif mode == "current":
+            # the key could not be told (unknown file naming, same resource under several comments): the
+            # self-describing content says which resource and version the file holds
+            with open(filepath, "rb") as f:
+                data = f.read()
+            raw = data[3:-1][::-1] if data.startswith(b"PP(") and data.endswith(b")") else data
+            if raw.startswith(b"SIM1|"):
+                try:
+                    cur = self.store.current(raw.split(b"|", 2)[1].decode())
+                    verdict = cur is not None and raw == cur
+                except Exception:  # noqa: BLE001 - not parseable: accepted, as before
+                    pass
         self.validator_calls.append((self.director.op, key, verdict))
         # validators written by users return whatever their expression yields: bool, int, numpy.bool_
         style = self.knobs.get("val_style", "bool")
